@@ -187,7 +187,7 @@ func (c08Engine) Gen(seed uint64, idx int, tier string) interface{} {
 			ps.Tree = genRoot(g, g0)
 		}
 		ps.NoEnv = r.Chance(1, 5)
-		ps.Source = Print(ps.Tree, Layout{}).Src
+		ps.Source = ps.Src()
 		sc.Progs = append(sc.Progs, ps)
 	}
 	sc.BudgetSlack = -1
@@ -790,7 +790,7 @@ func (c08Engine) Shrinks(sci interface{}) []interface{} {
 			t := t
 			add(func(c *SchedScenario) {
 				c.Progs[pi].Tree = t
-				c.Progs[pi].Source = Print(t, Layout{}).Src
+				c.Progs[pi].Source = c.Progs[pi].Src()
 				c.Schedule = nil
 			})
 		}
